@@ -226,6 +226,9 @@ func (e *Engine) verifyFunc(name string, forceSafety bool) (res *FuncResult) {
 		v := vc.paramVal(fmt.Sprintf("free%d:%s", i, fv.Name()), fv.Type())
 		f.vals[fv] = v
 	}
+	for _, t := range vc.contract.trackedCalls() {
+		vc.he.set(st, calledLoc(t), "Bool", "false") // ghost "was called" flags start false
+	}
 	vc.entry = st.clone()
 	// terms describing the entry state, for counterexample replay
 	vc.plan = vc.replayPlan()
